@@ -60,6 +60,10 @@ Definition imp_expected (c : imp_case) : col :=
 Definition chk_imp_spec (c : imp_case) : bool := obs_cmp false (im_obs c) (Some (imp_expected c)).
 
 Definition is_const (m : imethod) : bool := match m with IConst _ => true | _ => false end.
+Definition is_fill (m : imethod) : bool := match m with IFfill | IBfill => true | _ => false end.
+(* some row has a null cell AND a null in its key: pyarrow's group selection is empty for it *)
+Definition pa_empty_group (ks : list key) (v : col) : bool :=
+  existsb (fun p => key_has_null (fst p) && match snd p with None => true | Some _ => false end) (combine ks v).
 Definition pd_ungrouped (m : imethod) (c : col) : col :=
   match m with IMode => fill_with (mode_smallest (vals c)) c | _ => impute_spec m c end.
 Definition pa_ungrouped (is_int : bool) (m : imethod) (c : col) : col :=
@@ -79,6 +83,7 @@ Definition imp_fw (c : imp_case) : option col :=
                           else Some (pd_grouped true m ks v)
        | FwPa, None => Some (pa_ungrouped (im_int c) m v)
        | FwPa, Some ks => if is_const m then Some (if im_int c then impute_pa_int m v else impute_spec m v)
+                          else if is_fill m && pa_empty_group ks v then None   (* pc.indices_nonzero(<0 chunks>): crash *)
                           else Some (pa_grouped true m ks v)
        end.
 Definition chk_imp_fw (c : imp_case) : bool := obs_cmp false (im_obs c) (imp_fw c).
